@@ -155,12 +155,7 @@ class ObjectTemplate(base.HyperValue, utils.Formattable):
       """Extract top-level hyper primitives."""
       if (isinstance(value, base.HyperValue)
           and (not self._where or self._where(value))):
-        # Apply where clause to child choices.
-        if (self._where
-            and isinstance(value, base.HyperPrimitive)
-            and hasattr(value, 'where')):
-          value = value.clone().rebind(where=self._where)
-        hyper_primitives.append((path, value))
+        hyper_primitives.append((path, self._apply_where(value)))
       elif isinstance(value, symbolic.Object):
         for k, v in value.sym_items():
           utils.traverse(
@@ -172,6 +167,14 @@ class ObjectTemplate(base.HyperValue, utils.Formattable):
 
     utils.traverse(self._value, _extract_immediate_child_hyper_primitives)
     self._hyper_primitives = hyper_primitives
+
+  def _apply_where(self, value: base.HyperValue) -> base.HyperValue:
+    """Applies the `where` clause of this template to child choices."""
+    if (self._where
+        and isinstance(value, base.HyperPrimitive)
+        and hasattr(value, 'where')):
+      value = value.clone().rebind(where=self._where)
+    return value
 
   @property
   def value(self) -> Any:
@@ -315,7 +318,7 @@ class ObjectTemplate(base.HyperValue, utils.Formattable):
             f'Value is missing from input. Path=\'{path}\'.')
       if (isinstance(template_value, base.HyperValue)
           and (not self._where or self._where(template_value))):
-        children.append(template_value.encode(input_value))
+        children.append(self._apply_where(template_value).encode(input_value))
       elif isinstance(template_value, derived.DerivedValue):
         if self._compute_derived:
           referenced_values = [
